@@ -458,11 +458,17 @@ func (r *ctlRun) op(line string) string {
 		so, to := r.options(kv)
 		targets := decList(kv["targets"])
 		r.prepareTargets(targets, kv["healthy"] == "1")
-		return "res " + call(func() error { return r.router.DeployService(name, targets, so, to, ctlDeployTimeout, ctlDrainTimeout) })
+		return "res " + call(func() error {
+			var ok bool
+			return NewCommandHandler(r.router).Deploy(DeployArgs{Service: name, TargetURLs: targets, DeployTimeout: ctlDeployTimeout, DrainTimeout: ctlDrainTimeout, ServiceOptions: so, TargetOptions: to}, &ok)
+		})
 	case "rollout-deploy":
 		targets := decList(kv["targets"])
 		r.prepareTargets(targets, kv["healthy"] == "1")
-		return "res " + call(func() error { return r.router.SetRolloutTargets(name, targets, ctlDeployTimeout, ctlDrainTimeout) })
+		return "res " + call(func() error {
+			var ok bool
+			return NewCommandHandler(r.router).RolloutDeploy(RolloutDeployArgs{Service: name, TargetURLs: targets, DeployTimeout: ctlDeployTimeout, DrainTimeout: ctlDrainTimeout}, &ok)
+		})
 	case "sicken", "heal":
 		// the world changes: these targets stop (or resume) answering probes, and enough time passes for every
 		// probe loop to notice
@@ -482,18 +488,36 @@ func (r *ctlRun) op(line string) string {
 		return op + " ok"
 	case "rollout-set":
 		pct, _ := strconv.Atoi(kv["percent"])
-		return "res " + call(func() error { return r.router.SetRolloutSplit(name, pct, decList(kv["allow"])) })
+		return "res " + call(func() error {
+			var ok bool
+			return NewCommandHandler(r.router).RolloutSet(RolloutSetArgs{Service: name, Percentage: pct, Allowlist: decList(kv["allow"])}, &ok)
+		})
 	case "rollout-stop":
-		return "res " + call(func() error { return r.router.StopRollout(name) })
+		return "res " + call(func() error {
+			var ok bool
+			return NewCommandHandler(r.router).RolloutStop(RolloutStopArgs{Service: name}, &ok)
+		})
 	case "pause":
 		fa, _ := strconv.ParseInt(kv["failafter"], 10, 64)
-		return "res " + call(func() error { return r.router.PauseService(name, ctlDrainTimeout, time.Duration(fa)) })
+		return "res " + call(func() error {
+			var ok bool
+			return NewCommandHandler(r.router).Pause(PauseArgs{Service: name, DrainTimeout: ctlDrainTimeout, PauseTimeout: time.Duration(fa)}, &ok)
+		})
 	case "stop":
-		return "res " + call(func() error { return r.router.StopService(name, ctlDrainTimeout, string(unhexB(kv["msg"]))) })
+		return "res " + call(func() error {
+			var ok bool
+			return NewCommandHandler(r.router).Stop(StopArgs{Service: name, DrainTimeout: ctlDrainTimeout, Message: string(unhexB(kv["msg"]))}, &ok)
+		})
 	case "resume":
-		return "res " + call(func() error { return r.router.ResumeService(name) })
+		return "res " + call(func() error {
+			var ok bool
+			return NewCommandHandler(r.router).Resume(ResumeArgs{Service: name}, &ok)
+		})
 	case "remove":
-		return "res " + call(func() error { return r.router.RemoveService(name) })
+		return "res " + call(func() error {
+			var ok bool
+			return NewCommandHandler(r.router).Remove(RemoveArgs{Service: name}, &ok)
+		})
 	case "restart":
 		// the old process dies: its probe loops go with it
 		r.world.mu.Lock()
@@ -523,6 +547,10 @@ func (r *ctlRun) op(line string) string {
 			return nil
 		})
 		if !r.realtime {
+			// The first probe of a restored target starts before MarkAllHealthy runs; if its (failed) result lands
+			// first it is overwritten and the target is presumed healthy until the next probe. Which of the two
+			// happens is goroutine scheduling, so let one probe interval pass: from then on the latest probe decides.
+			time.Sleep(5 * time.Second)
 			synctest.Wait()
 		}
 		return "res " + res
